@@ -35,6 +35,22 @@ M = [
     ('C20', 'sleep-half', RT, '            sleep(delta)\n', '            sleep(delta * 0.5)\n', 'sleeps half the remaining time per iteration'),
     ('C20', 'sync-noop', RT, '        self.real_start = monotonic()\n\n    def step', '        self.env_start = self.env_start\n\n    def step',
      '`sync()` no longer re-bases `real_start`'),
+    ('C19', 'args-falsy', TIMER, '        if args is None:\n', '        if not args:\n', '`if not args` for `if args is None` (a scalar 0 becomes [])'),
+    ('C19', 'tuple-wrapped', TIMER, 'elif not isinstance(args, (list, tuple)):', 'elif not isinstance(args, list):', 'a tuple of arguments is wrapped like a scalar'),
+    ('C19', 'refuse-lt', TIMER, '        if timeout <= 0:\n', '        if timeout < 0:\n', '`timeout <= 0` refusal -> `< 0`'),
+    ('C19', 'stop-early-return', TIMER, '    def stop(self):\n        self.stopped = True\n',
+     '    def stop(self):\n        if self.stopped:\n            return\n        self.stopped = True\n', 'early return in `stop` when already stopped'),
+    ('C19', 'sleep-from-start', TIMER, 'yield self.env.timeout(self.expire_time - env.now)', 'yield self.env.timeout(self.expire_time - self.start_time)',
+     'the timeout argument is `expire_time - start_time`'),
+    ('C19', 'rebase-from-expiry', TIMER, '                        self.expire_time = env.now + self.timeout\n',
+     '                        self.expire_time = self.expire_time + self.timeout\n', 'auto-restart re-bases from the old expiry instead of `env.now`'),
+    ('C19', 'restart-no-own-return', TIMER,
+     '        if self.env.active_process is self.proc:\n            # called from the timer\'s own callback: run() is executing and\n'
+     '            # re-reads expire_time when the callback returns\n            return\n', '', '`restart` without the own-callback early return'),
+    ('C19', 'respawn-always', TIMER,
+     '            self.proc.interrupt("restart timer")\n            self.proc = self.env.process(self.run(self.env))\n',
+     '            self.proc.interrupt("restart timer")\n        self.proc = self.env.process(self.run(self.env))\n',
+     '`restart` starts a new process also when the old one is dead'),
 ]
 
 
